@@ -35,8 +35,8 @@ PROPS = {
     "C12": {
         "engine": "kani", "module": "c12", "timeout": {"quick": 900, "thorough": 2400},
         "functions": ["values::Value::equals", "values::Value::compare", "expressions::check_ordering (through evaluate_ast)"],
-        "bounds": "scalar pairs/triples over all f64/bool/null; lists of length <= 2 of numbers",
-        "outside": "records (IndexMap), strings beyond the fixed table, lists longer than 2",
+        "bounds": "scalar pairs/triples over all f64/bool/null; lists of length <= 2 of numbers; ASCII strings of 0..2 symbolic bytes in separate heap cells",
+        "outside": "records (IndexMap), strings longer than 2 bytes or with multi-byte characters, lists longer than 2",
     },
     "C14": {
         "engine": "kani", "module": "c14", "timeout": {"quick": 900, "thorough": 2400},
@@ -47,8 +47,8 @@ PROPS = {
     "C15": {
         "engine": "kani", "module": "c15", "timeout": {"quick": 900, "thorough": 2400},
         "functions": ["functions::BuiltInFunction::call (Min, Max, Avg, Sum, Prod, Median, Percentile; list and varargs branches)"],
-        "bounds": "1..3 numbers (4 for percentile membership); sum/prod/avg with mantissas restricted to the top few bits (two adder/multiplier circuits must be proved equivalent), min/max/median/percentile any non-NaN double; percentile p, q any doubles in [0,100]",
-        "outside": "more than 3 numbers, rounding bounds of long sums, permutation invariance beyond what list-vs-varargs and the order-statistic references imply",
+        "bounds": "1..3 numbers (4 for percentile membership and, in the thorough tier, for median / min / max with mantissas restricted to the top 6 bits); sum/prod/avg with mantissas restricted to the top few bits (two adder/multiplier circuits must be proved equivalent), min/max/median/percentile any non-NaN double; percentile p, q any doubles in [0,100]",
+        "outside": "more than 3 numbers (4 for median/min/max/percentile membership), rounding bounds of long sums, permutation invariance beyond what list-vs-varargs and the order-statistic references imply",
     },
     "C01": {
         "engine": "kani", "module": "c01", "timeout": {"quick": 900, "thorough": 2400},
